@@ -20,3 +20,17 @@ def c15_moments(inp, obligation):
     if not np.array_equal(store, before):
         bad.append("the stored moments were overwritten: %r -> %r (a second query of the statistics is wrong)" % (before.tolist(), store.tolist()))
     return bool(bad), {"m1": m1.tolist(), "m2": m2.tolist(), "violations": bad}
+
+
+@handler("C15.weights_special")
+def c15_weights_special(inp, obligation):
+    """closed-form branches of the weighted trapezoidal rule on the real function: one point, and three points without boundary points"""
+    import numpy as np
+    from sparseSpACE.Grid import GlobalTrapezoidalGridWeighted as G
+    bad = []
+    for grid, boundary in (([0.3], True), ([0.3], False), ([0.0, 0.4, 1.0], False)):
+        for modified in (False, True):
+            w = np.asarray(G.compute_weights(list(grid), 0.0, 1.0, None, boundary, modified), dtype=float)
+            if len(w) != len(grid) or np.any(w < 0) or abs(float(np.sum(w)) - 1.0) > 1e-12 or (len(grid) == 3 and (w[0] != 0 or w[-1] != 0)):
+                bad.append("compute_weights(%r, boundary=%r, modified_basis=%r) = %r" % (grid, boundary, modified, w.tolist()))
+    return bool(bad), {"violations": bad}
